@@ -59,7 +59,9 @@ def run(rep, tier, rng):
                 continue
             for kind in ("orthonormal", "independent", "arbitrary"):
                 for src_keys, tgt_keys in [(["A", "B", "C"], ["A", "B", "C"]), (["A", "B", "C"], ["B", "C", "D"]),
-                                           (["A", "B"], ["C", "D"]), (["A", "B", "C", "D"], ["D", "A"])]:
+                                           (["A", "B"], ["C", "D"]), (["A", "B", "C", "D"], ["D", "A"]),
+                                           # an empty vocabulary on either side (empty vocabularies are falsy in Python)
+                                           (["A", "B"], []), ([], ["A", "B"]), (["B", "A", "C"], ["A", "B", "C"])]:
                     configs.append((al, d_from, d_to, kind, src_keys, tgt_keys))
     if quick:
         rng.shuffle(configs)
@@ -150,7 +152,7 @@ def run(rep, tier, rng):
                 nontrivial=len(set(src_keys) & set(tgt_keys)) >= 2,
                 sample={k: base[k] for k in ("alg", "kind", "src_keys", "tgt_keys", "populate", "requested")} if populate is None and req == "subset" and kind == "orthonormal" else None)
             # ---- translate on fixed pointers and typed symbols ---------------------------
-            if o[0] == "ok" and populate is not True:
+            if o[0] == "ok" and populate is not True and src_keys:
                 Tm = [[int(round(x)) for x in row] for row in np.asarray(o[1])]
                 if np.allclose(np.asarray(o[1]), np.array(Tm)):
                     p = src[src_keys[0]]
